@@ -19,10 +19,16 @@ package samlidp
 //@ globalinv not_found: ErrNotFound != nil
 //@ globalinv login_template: defaultLoginFormTemplate != nil
 
+//@ -- each store operation is one critical section: what it reads and what it answers is one state of the map (an answer put
+//@ -- together from two lock sections is one no key-value map could give when a Delete or Put lands in between)
 //@ contract (*MemoryStore).Get
+//@ atomic
 //@ contract (*MemoryStore).Put
+//@ atomic
 //@ contract (*MemoryStore).Delete
+//@ atomic
 //@ contract (*MemoryStore).List
+//@ atomic
 //@ -- what a key-value map would answer: each name listed is a key that starts with the prefix, with that one leading
 //@ -- prefix cut off and nothing else (the key "<prefix><name>" is what Get / Delete are then called with)
 //@ assert@call[C19,C20] append #each (dst []string, src []string) uses k string lists_keys_under_prefix:
